@@ -506,6 +506,18 @@ def rule_point_zero_counted(col, facts):
             dc = op_expr(f, a[0])
             dcl = strip_casts(dc)
             cnt_local = dcl[1] if dcl[0] in ("var", "arg") else None
+            # `digit_count - leading_zeros`: the count is any re-assigned local the argument is computed from
+            cnt_locals = set()
+
+            def _vars(x):
+                if isinstance(x, tuple):
+                    if x and x[0] == "var" and len(x) > 1 and isinstance(x[1], int):
+                        cnt_locals.add(x[1])
+                    for y in x:
+                        _vars(y)
+            _vars(dcl)
+            if cnt_local is not None:
+                cnt_locals.add(cnt_local)
             for i, b in enumerate(f.blocks):
                 if not f.live(i) or (mb not in reach_from(f, i) and i != mb):
                     continue
@@ -517,8 +529,8 @@ def rule_point_zero_counted(col, facts):
                         continue
                     n += 1
                     ok = False
-                    if cnt_local is not None:
-                        for bb2, j2, rv2, pr2 in f.defs().get(cnt_local, []):
+                    for cl in cnt_locals:
+                        for bb2, j2, rv2, pr2 in f.defs().get(cl, []):
                             if (bb2 == i or bb2 in reach_from(f, i)) and (mb in reach_from(f, bb2) or bb2 == mb):
                                 ok = True
                     col.check(R, "%s:dot-zero#%d" % (base, n), ok,
@@ -603,6 +615,55 @@ def rule_cut_exposes_no_zeros(col, facts):
               "%d of %d cutting paths return the raw max_digits as the digit count: a zero exposed by the cut is counted as a digit (`955.05` to 4 digits with trim_floats prints `955.0`; the compact writers' debug assertion fails)" % (bad, n), where)
 
 
+def rule_radix_positional_counts(col, facts):
+    """Generic-radix positional writer (radix::write_float_nonscientific), two unit rules:
+    MPT-point - whether a fraction follows the decimal point is decided on the fraction digit count *after* the
+      trailing zeros were trimmed (rounding `1.0000000000000002` to 4 digits leaves `1` + `000`): the test that
+      guards the `.0` / trim_floats branch must be on a value one of whose definitions subtracts
+      rtrim_char_count - otherwise the point is left bare (`1.`) and min padding is skipped;
+    UNIT-zeros - the digit string starts at the integer digit, so for values below one it starts with zeros that
+      are not significant: the count handed to min_exact_digits must have the leading zeros (ltrim_char_count)
+      taken out, otherwise `0.25` with min = 3 in radix 36 is padded to `0.90`."""
+    if "radix" not in facts.config:
+        return
+    from rules.core import rvalue_expr, path_conditions
+    f = facts.fn(WF + "radix::write_float_nonscientific")
+    # UNIT-zeros
+    args = [op_expr(f, a[0]) for bb, c, a, d, t in f.calls() if callee_name(c) == WF + "shared::min_exact_digits"]
+    col.check("UNIT-zeros", "radix::write_float_nonscientific:min-counts-significant", bool(args) and all(any(last_seg(c[1]) == "ltrim_char_count" for c in expr_calls(a)) for a in args),
+              "min_exact_digits is handed `%s`: the leading zeros of a value below one are counted as significant digits, so the padding to min_significant_digits stops short (radix 36, 0.25, min 3 -> `0.90`)" % (show(args[0])[:80] if args else "?"), f.loc())
+    # MPT-point
+    n = 0
+    bad = 0
+    where = f.loc()
+    for i, b in enumerate(f.blocks):
+        if not f.live(i):
+            continue
+        for st in b["s"]:
+            if not (st[0] == "=" and st[1][1] and st[2][0] == "use" and st[2][1][0] == "k" and st[2][1][1].get("v") == 48 and st[2][1][1].get("ty") == "u8"):
+                continue
+            conds = path_conditions(f, i)
+            if not any(strip_casts(e)[0] == "call" and last_seg(strip_casts(e)[1]) == "trim_floats" and p is False for _d, e, p in conds):
+                continue
+            n += 1
+            ok = False
+            for _d, e, p in conds:
+                e = strip_casts(e)
+                if e[0] == "bin" and e[1] in ("Gt", "Ne", "Eq") and strip_casts(e[3]) == ("k", 0):
+                    x = strip_casts(e[2])
+                    if any(last_seg(c[1]) == "rtrim_char_count" for c in expr_calls(x)):
+                        ok = True
+                    if x[0] == "var":
+                        for _b, _j, rv, pr in f.defs().get(x[1], []):
+                            if not pr and any(last_seg(c[1]) == "rtrim_char_count" for c in expr_calls(rvalue_expr(f, rv, 1, x[1]))):
+                                ok = True
+            if not ok:
+                bad += 1
+                where = f.loc(st[3])
+    col.check("MPT-point", "radix::write_float_nonscientific:fraction-test-after-trim", n >= 1 and bad == 0,
+              "the branch that writes `.0` (or removes the point under trim_floats) is chosen on the fraction digit count *before* trailing zeros are trimmed (%d of %d sites): a fraction that rounds to zeros leaves a bare decimal point (`1.`, `10.`) and skips min_significant_digits" % (bad, n), where)
+
+
 def rule_padding_not_disabled_by_trim(col, facts):
     """MPT-pad: `trim_floats` only removes the `.0` of integral outputs; it must not switch off the zero padding up
     to min_significant_digits for everything else.  For every padding site (a fill(b'0') after min_exact_digits)
@@ -646,5 +707,6 @@ def run(col, configs, tier):
         guarded(col, rule_decimal_tie, facts)
         guarded(col, rule_padding_not_disabled_by_trim, facts)
         guarded(col, rule_cut_exposes_no_zeros, facts)
+        guarded(col, rule_radix_positional_counts, facts)
         guarded(col, X.rule_incremented_digit_in_range, facts)
         guarded(col, X.rule_zero_exponent_normalised, facts)
